@@ -51,6 +51,7 @@ func load(repo string) (*loaded, error) {
 			}
 		}
 	}
+	allFuncs = l.funcs
 	c, err := loadContracts(filepath.Join(repo, "verif_contracts.go"))
 	if err != nil {
 		return nil, err
@@ -120,6 +121,13 @@ func main() {
 		dir := filepath.Join(*work, "fn")
 		os.RemoveAll(dir)
 		dischargeAll(r.Obls, dir, timeout, 14)
+		if os.Getenv("GOVC_FACTS") != "" {
+			for _, o := range r.Obls {
+				if o.Status != "proved" {
+					fmt.Printf("--- %s: %d facts\n", o.Name, o.NFacts)
+				}
+			}
+		}
 		printResult(r, true)
 		return
 	}
